@@ -83,8 +83,9 @@ def main():
             import datetime as _dt
             ties_v = [(_dt.date(2020, 1, 1) + _dt.timedelta(days=v)) if k == "date" else _dt.datetime(2020, 1, 1, 12, 0, v) for v in ties_i]
         # layout 5: one big group (> 128 rows: size-dependent kernels) with a tie whose first-encountered value is not the smallest
-        big_g = [1] * 300 + [2] * 3
-        big_i = [7, 3] * 150 + [5, 5, 4]
+        # (two groups of > 1000 rows as well: sort-based counting with an unstable sort shows only there)
+        big_g = [1] * 300 + [2] * 3 + [3] * 1400 + [4] * 1200
+        big_i = [7, 3] * 150 + [5, 5, 4] + [7, 3] * 700 + [9, 5, 5, 9] * 300
         if k == "bool":
             big_v = [bool(v % 2 == 1 and v != 3) for v in big_i]
         elif k == "int":
